@@ -1183,6 +1183,14 @@ void fs_reset_counts()
 {
     memset(F.counts, 0, sizeof F.counts);
 }
+void fs_begin_op(int op)
+{
+    // per-operation ordinals and a per-operation buggify stream: the pattern of short writes and EINTRs
+    // inside operation k must not depend on what earlier operations (or the harness's own crash
+    // evaluation between them) drew, or a write ordinal collected in one run names another write in the next
+    memset(F.counts, 0, sizeof F.counts);
+    F.rng = Rng(mix(F.cfg.fault_seed ^ 0xf5f5f5f5ull, (uint64_t)op + 1));
+}
 void fs_set_fault(const FsFault &f)
 {
     F.cfg.fault = f;
